@@ -2,11 +2,12 @@
    Decided partially (DESIGN §4 C01): the panic-site inventory is regenerated
    from the current source and every site is accounted for; the literal actions
    and split_string are proved total for all tokens / all valid UTF-8 strings;
-   the stages that have mirrors (include resolution, desugaring, lifting, dominator
-   tree, SSA construction, propagation) are chained in Model.PipelineMirrors and
-   [C01_pipeline_mirrors_never_panic] composes their totality theorems, with the
-   bridges between them proved; the remaining stages are premises of the generic
-   [C01_pipeline_total].
+   the stages that have mirrors (include resolution, desugaring, renaming + lifting +
+   IR lifting, dominator tree, SSA construction, propagation) are chained in
+   Model.PipelineMirrors -- from the desugared syntax tree onwards no stage of that chain
+   is a parameter; the LALRPOP parser is one -- and [C01_pipeline_mirrors_never_panic]
+   composes their totality theorems, with the bridges between them proved; the remaining
+   stages are premises of the generic [C01_pipeline_total].
    Property theorems only: each is closed by [exact] of a lemma, followed by
    Print Assumptions. *)
 From Coq Require Import ZArith List Bool String.
@@ -18,7 +19,8 @@ Require Model.Lift Spec.CfgSpec Proofs.LiftTotalFlat Proofs.LiftEdges Model.Incl
 Require Model.Ir Model.Ssa Proofs.SsaNoPanic Proofs.SsaFuel Proofs.SsaClean.
 (* the chain of the actual mirrors (Model.PipelineMirrors) and its bridges *)
 Require Model.Ast Model.Desugar Model.Dom Model.Propagate Model.Justify Model.Clean Spec.ExpandSpec Spec.DomSpec.
-Require Model.PipelineMirrors Proofs.PipelineMirrorsProofs Proofs.MirrorsShape Proofs.MirrorsAdapter Proofs.MirrorsDom
+Require Model.LiftFull Proofs.LiftFullTotal Proofs.LiftFullIr.
+Require Model.PipelineMirrors Proofs.PipelineMirrorsProofs Proofs.MirrorsShape Proofs.MirrorsDom
         Proofs.MirrorsExample.
 Import ListNotations.
 Local Open Scope Z_scope.
@@ -217,22 +219,56 @@ Print Assumptions C01_complexity_does_not_underflow.
 (* ------------------------------------------------------------------------ *)
 (* THE CHAIN OF THE ACTUAL MIRRORS (Model.PipelineMirrors)                    *)
 (*                                                                            *)
-(*   Model.Includes.parse_files -> [parse: the LALRPOP parser, a parameter]   *)
+(*   Model.Includes.parse_files -> [parse: the LALRPOP parser, a PARAMETER --  *)
+(*      the only stage of the chain that is one]                              *)
 (*   -> per template Model.Desugar.desugar_template / per function            *)
-(*      check_function -> adapter skel/table -> Model.Lift.lift               *)
-(*   -> [ir_stmt, ir_cond, ir_head: IR lifting of a leaf, parameters]         *)
-(*   -> adapter ir_of_lift -> Model.Dom.dominator_tree -> Model.Ssa.into_ssa  *)
+(*      check_function                                                        *)
+(*   -> Model.LiftFull.lift_to_ir: ensure_unique_variables (unique_vars.rs),   *)
+(*      try_lift_impl / build_basic_blocks (control_flow_graph/lifting.rs),    *)
+(*      every TryLift impl (intermediate_representation/lifting.rs),          *)
+(*      declarations.rs, propagate_types; compared with the real into_cfg on  *)
+(*      every ./check C13 (engine liftfull) and on the definitions of C01's   *)
+(*      own engine                                                            *)
+(*   -> Model.Dom.dominator_tree -> Model.Ssa.into_ssa                        *)
 (*   -> Model.Propagate.propagate                                             *)
 (*                                                                            *)
 (* The analysis passes and the output stage are not part of the chain (they   *)
 (* remain premises of C01_pipeline_total below).                              *)
 (* ------------------------------------------------------------------------ *)
 
-(* BRIDGE desugar -> lift.  The body that the desugarer hands on has the shape that
-   C01_lift_never_panics_on_desugared_shape asks for, whenever the initialisation blocks
-   of the parsed body hold declarations and (multi-)substitutions only ([ast_init_ok],
-   decidable).  Proved through C18_desugar_refines_expand: the answer of the two passes
-   is the specified expansion, which keeps that shape. *)
+(* LIFTING (renaming pass, block construction, IR lifting of every statement and
+   expression, declarations).  [definition_wf] is decidable: the body is a block, free of
+   sugar (C18_desugar_output_sugar_free / C18_function_kept_iff, bridged below), of the shape
+   the desugarer hands on (C01_desugar_output_has_desugared_shape), and the keys handed to
+   Declarations::add_declaration -- parameters and declared names after the renaming pass --
+   are pairwise different (PipelineMirrors.names_distinct: evaluated on every explored
+   definition, NOT derived from C10's theorem about its own mirror of the renaming pass).
+   Panic sites covered (line numbers of the mirrored files): lifting.rs 192, 228, 288, 382;
+   intermediate_representation/lifting.rs 119, 193 (the catch-all arms
+   `panic!("failed to convert AST statement / expression to IR")`); declarations.rs 17;
+   unique_vars.rs 184; environment.rs add_variable / remove_variable_block asserts. *)
+Theorem C01_liftfull_never_panics : forall kind params pfile ploc body,
+  Model.LiftFull.definition_wf params pfile ploc body = true ->
+  (forall site, Model.LiftFull.try_lift_impl kind params pfile ploc body <> Panic site) /\
+  Model.LiftFull.try_lift_impl kind params pfile ploc body <> OutOfFuel.
+Proof. exact Proofs.LiftFullTotal.liftfull_never_panics'. Qed.
+Print Assumptions C01_liftfull_never_panics.
+
+(* the same for the mirror followed by the erasure onto Model.Ir (the function the chain,
+   and the C04 / C08 theorems, speak about) *)
+Theorem C01_lift_to_ir_never_panics : forall kind params pfile ploc body,
+  Model.LiftFull.definition_wf params pfile ploc body = true ->
+  (forall site, Model.LiftFull.lift_to_ir kind params pfile ploc body <> Panic site) /\
+  Model.LiftFull.lift_to_ir kind params pfile ploc body <> OutOfFuel.
+Proof. exact Proofs.LiftFullTotal.lift_to_ir_never_panics. Qed.
+Print Assumptions C01_lift_to_ir_never_panics.
+
+(* BRIDGE desugar -> lift (1).  The body that the desugarer hands on is a block whose
+   initialisation blocks are flat -- two of the four clauses of definition_wf -- and its
+   skeleton has the shape that C01_lift_never_panics_on_desugared_shape asks for, whenever
+   the initialisation blocks of the parsed body hold declarations and (multi-)substitutions
+   only ([ast_init_ok], decidable).  Proved through C18_desugar_refines_expand: the answer of
+   the two passes is the specified expansion, which keeps that shape. *)
 Theorem C01_desugar_output_has_desugared_shape :
   forall (lib : list (list N)) (ts : list (string * Model.Ast.statement)) (m : Model.Ast.meta)
          (l : list Model.Ast.statement) (body' : Model.Ast.statement),
@@ -240,26 +276,50 @@ Theorem C01_desugar_output_has_desugared_shape :
     Forall Spec.ExpandSpec.short_node (Spec.ExpandSpec.sub_stmts (Model.Ast.Block m l)) ->
     Model.PipelineMirrors.ast_init_ok (Model.Ast.Block m l) = true ->
     Model.Desugar.desugar_template (Model.Desugar.env_of ts) lib (Model.Ast.Block m l) = Model.Desugar.DOk body' ->
-    Proofs.LiftTotalFlat.desugared_shape (Model.PipelineMirrors.skel body' 0).
+    Model.LiftFull.is_block body' = true /\ Model.LiftFull.ast_init_flat body' = true /\
+    forall key : Model.Ir.meta -> nat, Proofs.LiftTotalFlat.desugared_shape (Model.LiftFull.skel key body').
 Proof. exact Proofs.MirrorsShape.desugar_output_shape. Qed.
 Print Assumptions C01_desugar_output_has_desugared_shape.
 
-(* BRIDGE lift -> IR graph.  The numbers [skel] gives to leaves and conditions are the
-   positions of [table], and the items of a lifted graph are the keys of its skeleton
-   (C12_every_item_exactly_once): every item finds its lifted statement, the adapter
-   never takes its model-only failure branch. *)
-Theorem C01_ir_adapter_total :
-  forall (ir_stmt : Model.Ast.statement -> option Model.Ir.stmt)
-         (ir_cond : Model.Ast.meta -> Model.Ast.expression -> option (Model.Ir.meta * Model.Ir.expr))
-         (body : Model.Ast.statement) (tbl : list Model.PipelineMirrors.irnode),
-    Model.PipelineMirrors.all_some
-      (map (Model.PipelineMirrors.ir_node ir_stmt ir_cond) (Model.PipelineMirrors.table body)) = Some tbl ->
-    forall g : list Model.Lift.block,
-      Model.Lift.lift (Model.PipelineMirrors.skel body 0) = Ok g ->
-      forall h : Model.PipelineMirrors.definition_head,
-      exists c : Model.Ir.cfg, Model.PipelineMirrors.ir_of_lift h tbl g = Some c.
-Proof. exact Proofs.MirrorsAdapter.ir_of_lift_total. Qed.
-Print Assumptions C01_ir_adapter_total.
+(* BRIDGE desugar -> lift (2).  What C18 proves of a body handed on
+   (Spec.ExpandSpec.sugar_free_stmt: no tuple, no anonymous component among ALL expression
+   nodes, no multi-substitution among all statements) is the sugar clause of definition_wf. *)
+Theorem C01_sugar_free_spec_is_wf_clause : forall s : Model.Ast.statement,
+  Spec.ExpandSpec.sugar_free_stmt s -> Model.LiftFull.stmt_sugar_free s = true.
+Proof. exact Proofs.MirrorsShape.stmt_sugar_free_of_spec. Qed.
+Print Assumptions C01_sugar_free_spec_is_wf_clause.
+
+(* BRIDGE lift -> SSA.  Whatever graph the lifting mirror returns,
+     - no variable occurrence carries a version (names are built by from_string and
+       split('.') only): the first hypothesis of C01_into_ssa_never_panics;
+     - an assignment tagged Local assigns a declared name (the tag is what propagate_types
+       found in the declarations): the hypothesis [written_declared] of
+       C01_into_ssa_fuel_suffices;
+     - the predecessor / successor lists DominatorTree::new reads are those of the graph
+       Model.Lift builds from the skeleton of the body (C13_liftfull_skeleton), so
+       C01_lifted_graph_is_rooted and C01_lifted_children_order_facts speak about it.
+   Until the second audit these were hypotheses (`lifted_ok`) about three parameters. *)
+Theorem C01_lifted_graph_feeds_ssa : forall kind params pfile ploc body r,
+  Model.LiftFull.try_lift_impl kind params pfile ploc body = Ok r ->
+  let c := Model.LiftFull.erase_cfg (Model.LiftFull.l_cfg r) in
+  Proofs.SsaNoPanic.unversioned c /\ Proofs.SsaFuel.written_declared c = true /\
+  forall key : Model.Ir.meta -> nat,
+    let g := map (Model.LiftFull.skel_block key) (Model.LiftFull.xc_blocks (Model.LiftFull.l_cfg r)) in
+    Model.Lift.lift (Model.LiftFull.skel key body) = Ok g /\
+    Model.PipelineMirrors.dom_of_ir c = Proofs.MirrorsDom.to_dom g /\
+    List.length (Model.Ir.c_blocks c) = List.length g.
+Proof. exact Proofs.LiftFullIr.lifted_feeds_ssa. Qed.
+Print Assumptions C01_lifted_graph_feeds_ssa.
+
+(* BRIDGE lift -> propagation.  The lifted graph carries no value claim, and its literals
+   are non-negative when those of the body are ([stmt_lits_ok], decidable; the renaming pass
+   keeps literals): with C01_into_ssa_keeps_clean, the first hypothesis of
+   C20_propagate_completes. *)
+Theorem C01_lifted_graph_is_clean : forall kind params pfile ploc body c,
+  Model.PipelineMirrors.stmt_lits_ok body = true ->
+  Model.LiftFull.lift_to_ir kind params pfile ploc body = Ok c -> Model.Clean.clean_cfg c = true.
+Proof. exact Proofs.LiftFullIr.lifted_clean. Qed.
+Print Assumptions C01_lifted_graph_is_clean.
 
 (* BRIDGE lift -> dominator tree.  The predecessor / successor lists of a lifted graph
    form a rooted graph (C12_entry_no_pred, C12_preds_succs_mirror, C12_all_reachable), so
@@ -296,6 +356,9 @@ Print Assumptions C01_lifted_children_order_facts.
    an error of the file stage; it does not end with Panic, and the only way to end with
    OutOfFuel is the fuel of the include loop (excluded by C19_include_terminates under
    its own hypotheses).
+   [parse] -- the LALRPOP parser -- is the one stage that is a parameter: a panic inside the
+   parser cannot be expressed here (its actions: C01_decnumber_action_total .. above; the
+   automaton is observed by the engine).  Every later stage is a mirror, with its panic sites.
    Proofs.PipelineMirrorsProofs.program_ok spells out what REMAINS A HYPOTHESIS, all of it
    decidable on the concrete program:
      per template  wf_template (C18: metas belong to a file of the library, log strings
@@ -303,24 +366,25 @@ Print Assumptions C01_lifted_children_order_facts.
                    ast_init_ok (initialisation blocks hold declarations and
                    (multi-)substitutions);
      per function  metas known, the body is a block, ast_init_ok;
-     per desugared body, about the two unmirrored stages:
-       lifted_ok      the IR statements of the leaves carry no version and no value claim
-                      and assign only declared locals (IR lifting is not mirrored);
-       ssa_output_ok  the graph into_ssa returns has one defining assignment per local --
-                      the second hypothesis of C20_propagate_completes; C14_unique_defs
-                      states it for graphs C14's validator accepts, it is not proved for
-                      the construction mirror itself.
-   Proved, not assumed: the desugarer does not crash (C18), its output has the shape lifting
-   accepts, lifting returns a graph (C12 + C01_lift_...), the adapter is total, the
-   dominator tree is computed (C15) and its children lists are a tree with growing
-   indices, into_ssa returns SOk or the `used before defined` error (no SPanic, no SFuel),
-   what it returns carries no value claim (the first hypothesis of C20), propagation
-   completes at every budget (C20). *)
+     per body handed to lifting, PipelineMirrors.body_ok (extracted; evaluated by ./check C01
+     on every definition the real parser + desugarer produce for its inputs, coverage key
+     `chain`):
+       names_distinct  the declaration keys after the renaming pass are pairwise different
+                       (what C10 proves of ITS mirror of the renaming pass; evaluated here);
+       stmt_lits_ok    number literals are non-negative;
+       ssa_output_ok   the graph into_ssa returns has one defining assignment per local --
+                       the second hypothesis of C20_propagate_completes; about the OUTPUT of
+                       the SSA mirror, evaluated, not derived from C14_construction_unique_defs
+                       (see design.d/C01.md for what is missing).
+   Proved, not assumed: the desugarer does not crash (C18), its output is free of sugar and
+   has the shape lifting accepts, renaming / lifting / IR lifting return a graph or one of
+   the two error reports (C01_lift_to_ir_never_panics), that graph is unversioned, assigns
+   declared locals only and is clean, the dominator tree is computed (C15) and its children
+   lists are a tree with growing indices, into_ssa returns SOk or the `used before defined`
+   error (no SPanic, no SFuel), what it returns carries no value claim (the first hypothesis
+   of C20), propagation completes at every budget (C20). *)
 Theorem C01_pipeline_mirrors_never_panic :
-  forall (ir_stmt : Model.Ast.statement -> option Model.Ir.stmt)
-         (ir_cond : Model.Ast.meta -> Model.Ast.expression -> option (Model.Ir.meta * Model.Ir.expr))
-         (ir_head : string -> Model.Ast.statement -> Model.PipelineMirrors.definition_head)
-         (ord : nat -> list nat -> list nat) (horder : list nat -> list nat) (p : Z) (kv kd : nat),
+  forall (ord : nat -> list nat -> list nat) (horder : list nat -> list nat) (p : Z) (kv kd : nat),
     Spec.DomSpec.order_ok ord ->
     (forall l : list nat, Permutation.Permutation (horder l) l) ->
     Znumtheory.prime p -> 2 < p -> Z.log2 p < 2 ^ 64 ->
@@ -335,8 +399,8 @@ Theorem C01_pipeline_mirrors_never_panic :
       forall (d23 : bool) (dfuel fuel : nat) (paths libs : list path),
         (forall st, Model.Includes.parse_files canon is_dir is_file read_dir join parent file_name ext_circom
                                                starts_dot has_sep content d23 dfuel fuel paths libs = Ok st ->
-                    Proofs.PipelineMirrorsProofs.program_ok ir_stmt ir_cond ir_head ord horder (parse st)) ->
-        match Model.PipelineMirrors.run_pipeline_mirrors ir_stmt ir_cond ir_head ord horder p kv kd canon is_dir is_file
+                    Proofs.PipelineMirrorsProofs.program_ok ord horder (parse st)) ->
+        match Model.PipelineMirrors.run_pipeline_mirrors ord horder p kv kd canon is_dir is_file
                 read_dir join parent file_name ext_circom starts_dot has_sep content parse d23 dfuel fuel paths libs with
         | Ok ds => Forall Proofs.PipelineMirrorsProofs.fine ds
         | Err _ => True
@@ -347,15 +411,29 @@ Theorem C01_pipeline_mirrors_never_panic :
 Proof. exact @Proofs.PipelineMirrorsProofs.run_pipeline_mirrors_never_panics. Qed.
 Print Assumptions C01_pipeline_mirrors_never_panic.
 
+(* the per-definition core of the composition, in the form the driver evaluates it: a body
+   that is a block, free of sugar, with flat initialisation blocks and [body_ok] ends DROk or
+   DRReport -- for every hash order, prime and budget *)
+Theorem C01_definition_chain_never_panics :
+  forall (ord : nat -> list nat -> list nat) (horder : list nat -> list nat) (p : Z) (kv kd : nat),
+    Spec.DomSpec.order_ok ord ->
+    (forall l : list nat, Permutation.Permutation (horder l) l) ->
+    Znumtheory.prime p -> 2 < p -> Z.log2 p < 2 ^ 64 ->
+    forall (d : Model.PipelineMirrors.definition) (body : Model.Ast.statement),
+      Model.LiftFull.is_block body = true -> Model.LiftFull.stmt_sugar_free body = true ->
+      Model.LiftFull.ast_init_flat body = true ->
+      Model.PipelineMirrors.body_ok ord horder d body = true ->
+      Proofs.PipelineMirrorsProofs.fine (Model.PipelineMirrors.analyse_body ord horder p kv kd d body).
+Proof. exact Proofs.PipelineMirrorsProofs.analyse_body_fine. Qed.
+Print Assumptions C01_definition_chain_never_panics.
+
 (* the hypotheses of the composition are satisfiable and the chain computes: the template
      template T() { var x = 0; while (x < 3) { x = x + 1; } }
-   with a sample instantiation of the unmirrored stages (Proofs.MirrorsExample: an IR
-   lifting for declarations, assignments to variables and arithmetic) meets program_ok,
-   the identity orders are orders, 3 is a prime, and the chain ends with DROk on an SSA
-   graph that has a two-argument phi statement at the loop header *)
+   meets program_ok, the identity orders are orders, 3 is a prime, and the chain (desugarer,
+   renaming + lifting + IR lifting, dominator tree, SSA construction, propagation) ends with
+   DROk on an SSA graph that has a two-argument phi statement at the loop header *)
 Example C01_pipeline_mirrors_example :
-  Proofs.PipelineMirrorsProofs.program_ok Proofs.MirrorsExample.ex_stmt Proofs.MirrorsExample.ex_cond
-    Proofs.MirrorsExample.ex_head Model.Dom.id_order (fun l => l) Proofs.MirrorsExample.ex_program /\
+  Proofs.PipelineMirrorsProofs.program_ok Model.Dom.id_order (fun l => l) Proofs.MirrorsExample.ex_program /\
   (Spec.DomSpec.order_ok Model.Dom.id_order /\ (forall l : list nat, Permutation.Permutation ((fun l => l) l) l)) /\
   Znumtheory.prime 3 /\
   match Proofs.MirrorsExample.ex_run with
@@ -368,8 +446,9 @@ Proof.
 Qed.
 
 (* the hypotheses of C01_into_ssa_never_panics and C01_into_ssa_fuel_suffices are met by
-   the pre-SSA graph of that template (three blocks, a loop) with the children and
-   frontier lists that the dominator-tree mirror computes for it, and into_ssa returns a graph *)
+   the pre-SSA graph of that template (what Model.LiftFull.lift_to_ir returns for the
+   desugared body: three blocks, a loop) with the children and frontier lists that the
+   dominator-tree mirror computes for it, and into_ssa returns a graph *)
 Example C01_into_ssa_example :
   match Model.Dom.dominator_tree (Model.Dom.dom_fuel (Model.PipelineMirrors.dom_of_ir Proofs.MirrorsExample.ex_pre))
           Model.Dom.id_order (Model.PipelineMirrors.dom_of_ir Proofs.MirrorsExample.ex_pre) with
@@ -413,8 +492,9 @@ Proof. exact Proofs.MirrorsExample.ex_fs_hypothesis. Qed.
                 hexnumber_, string_action_total, C01_version_action_never_panics);
                 build_log_call -> C01_split_string_never_panics; the LALRPOP
                 automaton and lexer are observed
-     lift       (the renaming before lifting) C10_pass_never_panics,
-                C10_renaming_injective_on_declarations; IR lifting of the leaves is observed
+     lift       now part of the chain of mirrors (Model.LiftFull: renaming, lifting, IR
+                lifting); C10_pass_never_panics / C10_renaming_injective_on_declarations are
+                about C10's own mirror of the renaming pass
      passes     C12_branch_only_last, C12_branch_targets_exist_and_are_succs,
                 C12_preds_succs_mirror, C15_*_exact (the cfg.rs accessors the taint
                 analysis uses), C09_taint_fuel_suffices, C11_*_reports_exact,
@@ -466,3 +546,28 @@ Proof.
   repeat split; try (vm_compute; reflexivity).
   eexists. split; vm_compute; reflexivity.
 Qed.
+
+(* the hypothesis of C01_liftfull_never_panics is satisfiable, and it is needed: the same
+   body with a tuple in it is not well-formed and lifting panics at the site of
+   `panic!("failed to convert AST expression to IR")`;
+   `function f(x) { var y = x; while (y) { y = 1; } return y; }` *)
+Local Open Scope string_scope.
+Local Open Scope N_scope.
+Example C01_liftfull_example :
+  let m (a b : N) := Model.Ast.Meta a b (Some 0%N) in
+  let v n a b := Model.Ast.Variable_ (m a b) n [] in
+  let body rhs := Model.Ast.Block (m 14 60)
+    [Model.Ast.InitializationBlock (m 16 26) Model.Ast.VVar
+       [Model.Ast.Declaration (m 16 26) Model.Ast.VVar "y" [] false;
+        Model.Ast.Substitution (m 16 26) "y" [] Model.Ast.AssignVar (v "x" 24 25)];
+     Model.Ast.While (m 27 48) (v "y" 34 35)
+       (Model.Ast.Block (m 37 48) [Model.Ast.Substitution (m 39 45) "y" [] Model.Ast.AssignVar rhs]);
+     Model.Ast.Return (m 49 58) (v "y" 56 57)] in
+  let good := body (Model.Ast.Number (m 43 44) 1) in
+  let bad := body (Model.Ast.Tuple (m 43 44) []) in
+  Model.LiftFull.definition_wf ["x"] (Some 0%N) (11, 12)%N good = true /\
+  is_ok (Model.LiftFull.try_lift_impl Model.Ir.KFunction ["x"] (Some 0%N) (11, 12)%N good) = true /\
+  Model.LiftFull.definition_wf ["x"] (Some 0%N) (11, 12)%N bad = false /\
+  Model.LiftFull.try_lift_impl Model.Ir.KFunction ["x"] (Some 0%N) (11, 12)%N bad
+    = Panic Model.LiftFull.site_expr_not_liftable.
+Proof. vm_compute. repeat split; reflexivity. Qed.
